@@ -279,6 +279,7 @@ func runConnOps(env *mtx.Env, cr connRun) (out []obs, fail string) {
 			done := make(chan struct{})
 			stop := make(chan struct{})
 			var sent []int64
+			var sentMsg [][2]int64 // (msg_id, seq_no) of every transmission of the request
 			// forced interleaving (o.Race): R1 = read path of an unrelated message, parked between
 			// salts.Get and storeSalt until Invoke has stored the server's new salt and reset the store
 			r1AtHook, release, r1Done := make(chan struct{}), make(chan struct{}), make(chan struct{})
@@ -333,6 +334,7 @@ func runConnOps(env *mtx.Env, cr connRun) (out []obs, fail string) {
 					}
 					i := len(sent)
 					sent = append(sent, f.Salt)
+					sentMsg = append(sentMsg, [2]int64{f.MsgID, int64(f.SeqNo)})
 					if i >= maxSends {
 						continue // no more answers: the watchdog / Invoke's context ends the case
 					}
@@ -378,6 +380,11 @@ func runConnOps(env *mtx.Env, cr connRun) (out []obs, fail string) {
 			time.Sleep(2 * time.Millisecond) // a transmission after the return would show up here
 			close(stop)
 			<-done
+			for j := 1; j < len(sentMsg); j++ {
+				if sentMsg[j] != sentMsg[0] {
+					return out, fmt.Sprintf("resend: the request was re-sent as a different message: msg_id/seq_no %v, first transmission %v", sentMsg[j], sentMsg[0])
+				}
+			}
 			for _, s := range sent {
 				out = append(out, obs{2, s})
 			}
@@ -531,6 +538,9 @@ func main() {
 			sig := "conn-run-failed"
 			if strings.HasPrefix(fail, "hang") {
 				sig = "scenario-hang"
+			}
+			if strings.HasPrefix(fail, "resend:") {
+				sig = "resend-is-a-different-message"
 			}
 			c.Violate(sig, "Conn: "+fail, -1, 0, map[string]interface{}{"conn": cr})
 			return
